@@ -11,6 +11,7 @@ import FalconProofs.C19.Entries
 import FalconProofs.C19.Symbols
 import FalconProofs.C19.Link
 import FalconProofs.C19.History
+import FalconProofs.C19.Additive
 
 namespace Falcon.C19
 open Falcon.Elf
@@ -217,6 +218,30 @@ theorem link_once_mips_got (files : List ElfDesc) (big : Bool) (calls : List (St
   (link_once files big calls stF h hsep hok e he).1 (pg + e.2.1 + (lg + k) * 4, big, v % U32)
     (Or.inr ⟨hm, lg, gs, sn, pg, k, s, v, h1, h2, h3, h4, hk, hs, hu, hv, rfl⟩)
 
+/-- **Additive relocations are applied exactly once, whatever calls follow** (the sentence the seeded
+    change C19-m4 violated: a later `load_elf` re-applied `R_386_RELATIVE` to objects loaded earlier).
+    Same hypotheses as `link_once`.  For every placement `(d, B)` of the history of an x86 object and
+    every `R_386_RELATIVE` relocation `r` of it (any of the three tables): if the FILE IMAGE of the
+    placement holds the word `v0` at `r_offset + B`, then at the END of the history the word there is
+    `B + v0` - the base of its own placement added once, not twice, not zero times.
+
+    PARTIAL.  Full statement: the same for every additive kind of the linker.  Proved: x86
+    `R_386_RELATIVE`.  Missing: MIPS `R_MIPS_REL32` (word + base) and the MIPS local-GOT rebase
+    (`mipsGotBase`: entries `0 .. LOCAL_GOTNO + SYMTABNO - GOTSYM` += base); for those the frame lemma
+    `runCalls_frame` still shows that no later call changes them, and the correspondence check compares
+    them, but "= original + base" is not stated as a theorem (it needs `ObjOk` to also keep REL32 sites
+    apart from the whole GOT and from each other). -/
+theorem link_once_additive_partial (files : List ElfDesc) (big : Bool) (calls : List (String × Nat))
+    (stF : LinkState) (h : runCalls files big LinkState.empty calls = .ok stF)
+    (hsep : Sep stF.placed) (hok : ∀ y ∈ stF.placed, ObjOk y.1)
+    (e : ElfDesc × Nat × LinkState) (he : e ∈ trace files big LinkState.empty calls)
+    (hm : e.1.machine = EM_386) (r : Rel) (hr : r ∈ e.1.relas ++ e.1.rels ++ e.1.plt)
+    (hty : r.rtype = R_386_RELATIVE) (v0 : Nat)
+    (hv : read32 (image e.1 e.2.1) false (r.offset + e.2.1) = some v0) :
+    read32 stF.mem false (r.offset + e.2.1) = some (e.2.1 % U32 + v0) :=
+  history_add files big _ stF calls h hsep hok e he (r.offset + e.2.1, false, e.2.1 % U32 + v0)
+    ⟨hm, r, hr, hty, v0, hv, rfl⟩
+
 /-! ## non-vacuity: a concrete two-segment object with bss, symbols and a PLT relocation -/
 
 def exText : PHdr := ⟨1, 5, 120, 0x401000, 4, 4, [0x55, 0x89, 0xe5, 0xc3], 0x30000000, 0x1000⟩
@@ -264,7 +289,7 @@ def exFiles : List ElfDesc := [exProg, exLib, exLib2]
 
 /-- after `new(prog)` and `load_elf(libx.so, 0x50000000)`: prog's PLT slot and libx's GOT slot hold `puts` of
     libc.so rebased once; the R_386_RELATIVE word of libc.so (0x1002) was rebased once - not again by the
-    second call -; three placements -/
+    second call (`link_once_additive_partial`) -; three placements -/
 def exHistory : Bool :=
   match runCalls exFiles false LinkState.empty [("prog", 0), ("libx.so", 0x50000000)] with
   | .ok st =>
